@@ -436,6 +436,56 @@ IdpViol(n, e) ==
   \cup Tag("C18", "OwnCredentials", C18IdpCauses(n, e), n)
 
 ---------------------------------------------------------------------------
+(* Layer B -- rung conformance.  The ladder of oidcHandler.Process (the actions of AuthFlow.tla) as an automaton over
+   the logged events of one check: after every event, which event may come next.  An event outside that set is
+   SPECIFICATION DRIFT (the code no longer follows the specification rung by rung); it is counted, never a violation. *)
+Lbl(e) == IF e.ev = "store" THEN "S:" \o e.op ELSE IF e.ev = "idp" THEN "I:" \o e.grant ELSE IF e.ev = "jwks" THEN "J" ELSE "R:" \o Outcome(e)
+
+OnRefreshPath(n) == \E i \in DOMAIN Evs(n) : Evs(n)[i].e.ev = "idp" /\ Evs(n)[i].e.grant = "refresh_token"
+
+NextAllowed(n) ==
+  LET q == Req(n)
+      es == Evs(n)
+  IN IF Len(es) = 0
+     THEN IF q.kind = "logout" /\ flt[q.f].logout THEN (IF q.cookie = "none" THEN {"R:endsession"} ELSE {"S:RemoveSession"})
+          ELSE IF q.cookie = "none" THEN {"S:SetAuthorizationState"}
+          ELSE IF q.kind = "callback" THEN (IF q.states = <<>> \/ q.codes = <<>> THEN {"R:deny"} ELSE {"S:GetAuthorizationState"})
+          ELSE {"S:GetTokenResponse"}
+     ELSE
+      LET x == es[Len(es)]
+          e == x.e
+          l0 == Lbl(e)
+      IN
+      CASE l0 = "S:RemoveSession" ->
+             IF e.err THEN {"R:sessionError"}
+             ELSE IF q.kind = "logout" /\ flt[q.f].logout THEN {"R:endsession"} ELSE {"S:SetAuthorizationState"}
+        [] l0 = "S:SetAuthorizationState" -> IF e.err THEN {"R:sessionError"} ELSE {"R:authorize"}
+        [] l0 = "S:GetTokenResponse" ->
+             IF e.err THEN {"R:sessionError"}
+             ELSE IF ~e.res.ex THEN {"S:RemoveSession"}
+             ELSE IF Fresh(e.res, q.f, x.at) THEN {"R:ok"}
+             ELSE IF e.res.rt = "none" THEN {"S:RemoveSession"} ELSE {"I:refresh_token"}
+        [] l0 = "I:refresh_token" -> IF e.answer = "ok" THEN {"S:GetAuthorizationState"} ELSE {"S:RemoveSession"}
+        [] l0 = "S:GetAuthorizationState" ->
+             IF OnRefreshPath(n) THEN (IF e.err THEN {"S:RemoveSession"} ELSE {"J", "S:RemoveSession"})
+             ELSE IF e.err THEN {"R:sessionError"}
+             ELSE IF ~e.res.ex THEN {"R:deny"}
+             ELSE IF e.res.state \notin RangeS(q.states) \/ q.states[1] # e.res.state THEN {"R:deny"}
+             ELSE {"I:authorization_code"}
+        [] l0 = "I:authorization_code" -> IF e.answer = "ok" THEN {"J", "R:deny"} ELSE {"R:deny"}
+        [] l0 = "J" ->
+             IF OnRefreshPath(n) THEN (IF e.res = "err" THEN {"S:RemoveSession"} ELSE {"S:SetTokenResponse", "S:RemoveSession"})
+             ELSE (IF e.res = "err" THEN {"R:deny"} ELSE {"S:ClearAuthorizationState", "R:deny"})
+        [] l0 = "S:ClearAuthorizationState" -> IF e.err THEN {"R:sessionError"} ELSE {"S:SetTokenResponse"}
+        [] l0 = "S:SetTokenResponse" -> IF e.err THEN {"R:sessionError"} ELSE IF OnRefreshPath(n) THEN {"R:ok"} ELSE {"R:app"}
+        [] OTHER -> {}
+
+\* the drift record of an event that does not follow the ladder (empty set when it does, or when the check is opaque)
+RungDrift(n, e) ==
+  IF Opaque(n) \/ (e.ev = "idp" /\ e.answer = "odd") \/ Lbl(e) \in NextAllowed(n) THEN {}
+  ELSE {[sc |-> sc, n |-> n, expect |-> "one-of-the-ladder's-next-rungs", got |-> Lbl(e)]}
+
+---------------------------------------------------------------------------
 Init ==
   /\ l = 1 /\ now = 0 /\ sc = "none"
   /\ flt = <<>> /\ logins = <<>> /\ presented = {} /\ consumed = {} /\ dead = <<>>
@@ -480,6 +530,7 @@ StoreEv ==
   /\ E.ev = "store"
   /\ chk' = Note(E.n)
   /\ viol' = viol \cup StoreViol(E.n, E)
+  /\ drift' = drift \cup RungDrift(E.n, E)
   /\ fired' = BumpIf(BumpIf(fired, E.op = "SetTokenResponse" /\ E.fault # "before", "SetTokenResponse"),
                      Has(dead, E.sid), "storeOnLoggedOutSession")
   \* the newest refresh token of a family is the last one the service managed to store
@@ -491,12 +542,13 @@ StoreEv ==
               THEN Put(bound, E.sid, (IF Has(bound, E.sid) THEN bound[E.sid] ELSE {}) \cup {E.arg.id}) ELSE bound
   /\ stored' = IF E.op = "SetTokenResponse" /\ E.fault = "none" /\ ~E.err THEN stored \cup {E.sid} ELSE stored
   /\ gone' = IF (E.op = "RemoveSession" /\ E.fault # "before") \/ E.err THEN gone \cup {E.sid} ELSE gone
-  /\ UNCHANGED <<now, sc, flt, logins, presented, consumed, codes, idtok, rtl, lastUse, attok, br, drift>>
+  /\ UNCHANGED <<now, sc, flt, logins, presented, consumed, codes, idtok, rtl, lastUse, attok, br>>
 
 IdpEv ==
   /\ E.ev = "idp"
   /\ chk' = Note(E.n)
   /\ viol' = viol \cup IdpViol(E.n, E)
+  /\ drift' = drift \cup RungDrift(E.n, E)
   /\ idtok' = IF E.issued.ex /\ E.issued.id.ex
               THEN Put(idtok, E.issued.id.sym, E.issued.id) ELSE idtok
   /\ rtl' = IF E.issued.ex /\ E.issued.rt.ex
@@ -504,12 +556,13 @@ IdpEv ==
   /\ attok' = IF E.issued.ex /\ E.issued.at.ex
               THEN Put(attok, E.issued.at.sym, IF E.issued.expiresIn > 0 THEN now + E.issued.expiresIn ELSE -1) ELSE attok
   /\ fired' = Bump(fired, "idp:" \o E.grant \o ":" \o E.answer)
-  /\ UNCHANGED <<now, sc, flt, logins, presented, consumed, dead, codes, latest, lastUse, stored, gone, bound, br, drift>>
+  /\ UNCHANGED <<now, sc, flt, logins, presented, consumed, dead, codes, latest, lastUse, stored, gone, bound, br>>
 
 JwksEv ==
   /\ E.ev = "jwks"
   /\ chk' = Note(E.n)
-  /\ UNCHANGED <<now, sc, flt, logins, presented, consumed, dead, codes, idtok, rtl, latest, lastUse, stored, gone, bound, attok, br, viol, drift, fired>>
+  /\ drift' = drift \cup RungDrift(E.n, E)
+  /\ UNCHANGED <<now, sc, flt, logins, presented, consumed, dead, codes, idtok, rtl, latest, lastUse, stored, gone, bound, attok, br, viol, fired>>
 
 RespEv ==
   /\ E.ev = "resp"
@@ -522,7 +575,8 @@ RespEv ==
          rm == SelectSeq(Ops(n, "RemoveSession"), LAMBDA x : x.e.sid = q.cookie /\ Took(x) /\ Good(x))
      IN
        /\ viol' = viol \cup RespViol(n, r)
-       /\ drift' = IF r.expect # "" /\ r.expect # o THEN drift \cup {[sc |-> sc, n |-> n, expect |-> r.expect, got |-> o]} ELSE drift
+       /\ drift' = (IF r.expect # "" /\ r.expect # o THEN drift \cup {[sc |-> sc, n |-> n, expect |-> r.expect, got |-> o]} ELSE drift)
+                    \cup (IF o \in {"panic", "grpcError", "nilResponse", "bare"} THEN {} ELSE RungDrift(n, r))
        /\ logins' = IF newSid # "none" /\ Len(sets) > 0 /\ BaseParams \subseteq DOMAIN r.loc.params
                     THEN Put(logins, newSid, [f |-> r.f, state |-> r.loc.params.state[1], nonce |-> r.loc.params.nonce[1],
                                                challenge |-> r.loc.params.code_challenge[1], url |-> q.url, at |-> now])
